@@ -49,6 +49,7 @@ NoActM ==
    jl |-> <<>>,
    hdone |-> 0,                    \* handler exits (any outcome)
    slowDone |-> FALSE,             \* some handler demonstrably took >= SlowUs
+   verySlowDone |-> FALSE,         \* some handler demonstrably took >= VerySlowUs
    lastCnt |-> 0,                  \* last message_count seen
    tellPending |-> 0,              \* tell handler finished, on_tell_result not seen yet (message id)
    sendErr |-> FALSE]              \* some tell/ask has returned Error::Send (the mailbox was found closed)
@@ -56,6 +57,7 @@ NoActM ==
 NoOpM == [own |-> "", kind |-> "", a |-> "", m |-> 0, d |-> 0, stNow |-> 0,
           done |-> FALSE, res |-> "", dls |-> <<>>, afterJoin |-> FALSE, mustPanic |-> FALSE, jp |-> FALSE, pend |-> FALSE,
           acc |-> FALSE,
+          armed |-> TRUE,          \* FALSE: the future exists but has not been polled yet (its timeout is not running)
           afterSendErr |-> FALSE,  \* the call began after some tell/ask to the same actor had returned Error::Send
           pair |-> 0]             \* # 0: the same call issued twice in the same situation, on the ActorRef and through a wrapper
 
@@ -117,7 +119,7 @@ OnCmd(mon, ev) ==
       b2 == UNION {B(mon.strict /\ mon.act[a].tellPending # 0, "C19", "on_tell_result not invoked after a tell") : a \in acts}
       \* C10: time is about to move although a client's timed op should already have returned
       adv == ev.cmd.c = "advance"
-      b3 == UNION {B(mon.strict /\ adv /\ ~mon.ops[o].done /\ mon.ops[o].kind \in TimedKindsM
+      b3 == UNION {B(mon.strict /\ adv /\ ~mon.ops[o].done /\ mon.ops[o].armed /\ mon.ops[o].kind \in TimedKindsM
                      /\ ~Has(mon.act, mon.ops[o].own)
                      /\ (mon.now >= mon.ops[o].stNow + mon.ops[o].d \/ ActOf(mon, mon.ops[o].a).joined),
                      "C10", "timed op still pending past its deadline or after its actor ended") : o \in DOMAIN mon.ops}
@@ -143,6 +145,7 @@ OnOpStart(mon, ev) ==
       m1 == UpdO(mon, ev.op, [own |-> ev.own, kind |-> ev.kind, a |-> ev.a, m |-> ev.m, d |-> ev.d,
                               jp |-> IF "jp" \in DOMAIN ev THEN ev.jp ELSE FALSE,
                               pair |-> IF "pair" \in DOMAIN ev THEN ev.pair ELSE 0,
+                              armed |-> ~("lazy" \in DOMAIN ev /\ ev.lazy),
                               stNow |-> ev.now, afterJoin |-> A.joined, afterSendErr |-> A.sendErr, mustPanic |-> cyc])
       m2 == IF isMsg
               THEN UpdM(m1, ev.m, [op |-> ev.op, a |-> ev.a, before |-> {x \in MsgsTo(mon, ev.a) : mon.msgs[x].acc},
@@ -306,12 +309,13 @@ OnHExit(mon, ev) ==
   ELSE IF ev.hook = "handler" THEN
        LET M == MsgOf(mon, ev.m)
            isTell == OpOf(mon, M.op).kind \in TellKindsM
-           ok == ev.out \in {"ok", "slow"}
+           ok == ev.out \in {"ok", "slow", "veryslow"}
            m1 == IF ok
                    THEN UpdM(mon, ev.m, [replied |-> TRUE, rv |-> ev.v, repNow |-> mon.now]) ELSE mon
            m2 == UpdA(m1, a, [inHook |-> "", panicIn |-> pan,
                               jl |-> IF ok THEN Append(A.jl, "h") ELSE A.jl,
-                              hdone |-> A.hdone + 1, slowDone |-> A.slowDone \/ ev.out \in {"slow", "slowpanic"},
+                              hdone |-> A.hdone + 1, slowDone |-> A.slowDone \/ ev.out \in {"slow", "slowpanic", "veryslow"},
+                              verySlowDone |-> A.verySlowDone \/ ev.out = "veryslow",
                               tellPending |-> IF ok /\ isTell THEN ev.m ELSE 0])
        IN  AddBad([m2 EXCEPT !.crashed = crashed], b0)
   ELSE \* stop
@@ -475,7 +479,7 @@ OnQuiescent(mon, ev) ==
       unj  == RangeOf(ev.unjoined)
       b1 == UNION {B(OpOf(mon, o).kind \in AskKindsM /\ ActOf(mon, OpOf(mon, o).a).joined,
                      "C03", "ask still pending although its actor has ended") : o \in pend}
-      b2 == UNION {B(OpOf(mon, o).kind \in TimedKindsM /\ mon.now >= OpOf(mon, o).stNow + OpOf(mon, o).d,
+      b2 == UNION {B(OpOf(mon, o).kind \in TimedKindsM /\ OpOf(mon, o).armed /\ mon.now >= OpOf(mon, o).stNow + OpOf(mon, o).d,
                      "C10", "timed op still pending past its deadline") : o \in pend}
       b3 == UNION {LET A == ActOf(mon, a) IN
                    B(A.startOut = "ok" /\ (A.stopRet \/ A.userStrong = 0 \/ A.killArmed) /\ A.nestOp = 0
@@ -493,6 +497,7 @@ OnQuiescent(mon, ev) ==
   IN  AddBad(mon, b1 \cup b2 \cup b3 \cup b4 \cup b5 \cup b6 \cup b7)
 
 SlowUs == 3000   \* a handler told to be slow holds its thread for at least this long (wall clock, microseconds)
+VerySlowUs == 1100000
 
 \* C20: metrics read through a handle at quiescence
 OnMetrics(mon, ev) ==
@@ -500,6 +505,8 @@ OnMetrics(mon, ev) ==
       b == B(A.inHook # "handler" /\ ev.cnt # Len(A.order), "C20", "message_count differs from the number of handled messages")
            \cup B(ev.avg > ev.max, "C20", "avg_processing_time exceeds max_processing_time")
            \cup B(A.slowDone /\ ev.max < SlowUs, "C20", "max_processing_time below the time a handler demonstrably took")
+           \cup B(A.verySlowDone /\ ev.max < VerySlowUs, "C20", "max_processing_time below the time a handler demonstrably took")
+           \cup B(A.verySlowDone /\ ev.cnt > 0 /\ ev.avg * ev.cnt < VerySlowUs - 2 * ev.cnt, "C20", "total processing time below the time one handler demonstrably took")
            \cup B(ev.cnt # ev.scnt \/ ev.avg # ev.savg \/ ev.max # ev.smax, "C20", "snapshot disagrees with the accessors")
            \cup B(ev.cnt = 0 /\ (ev.avg # 0 \/ ev.max # 0), "C20", "processing times without messages")
   IN  AddBad(mon, b)
@@ -531,6 +538,8 @@ MonStep(mon, ev) ==
     [] ev.e = "Quiescent"  -> OnQuiescent(mon, ev)
     [] ev.e = "Metrics"    -> OnMetrics(mon, ev)
     [] ev.e = "TaskEnd"    -> UpdM(mon, ev.m, [tout |-> ev.out])
+    \* first poll of a future created earlier: its timeout starts counting now
+    [] ev.e = "OpArm"      -> UpdO(mon, ev.op, [stNow |-> ev.now, armed |-> TRUE])
     [] OTHER               -> mon      \* Inapplicable, ErrLog, ...
 
 RECURSIVE MonFold(_, _)
